@@ -38,6 +38,8 @@ def realize(spec):
         return h5py.Empty(spec.get("dt", "f4"))
     if t == "bool":
         return bool(spec["v"])
+    if t == "strarr":  # array of variable-length (byte) strings, not necessarily valid UTF-8
+        return np.array([bytes.fromhex(x) for x in spec["v"]], dtype=h5py.string_dtype())
     if t == "bad":  # values h5py refuses (the assignment must fail and change nothing)
         return {"object": object(), "nulbytes": b"a\x00b", "ragged": [[1, 2], [3]], "dict": {"a": 1}}[spec["v"]]
     if t == "bigattr":  # too large for an attribute (HDF5 refuses it after h5py has removed the old value)
